@@ -68,7 +68,13 @@ def run_cli(binary, args, cwd, stdin=None, seed=0, extra_env=None, timeout=60):
     """returns (exit code or 'timeout', stdout bytes, stderr bytes)"""
     # a run that exceeds the limit is repeated once with six times the limit before it is called a
     # hang: a loaded machine must not turn into an alarm (a genuine hang still exceeds both)
-    for limit in (timeout, timeout * 6):
+    # both limits are stretched by the machine's load (1-minute load average per core, when > 1):
+    # the time a process gets is what the limit is about, not the wall clock
+    try:
+        stretch = max(1.0, os.getloadavg()[0] / (os.cpu_count() or 1))
+    except OSError:
+        stretch = 1.0
+    for limit in (timeout * stretch, timeout * 6 * stretch):
         try:
             r = subprocess.run([binary] + args, cwd=cwd, input=stdin, env=run_env(seed, extra_env),
                                stdout=subprocess.PIPE, stderr=subprocess.PIPE, timeout=limit)
